@@ -113,7 +113,8 @@ class EvaluatorFormatterAdapter(FormatterAdapter):
                 self.show_rules = [opt.replace('fail', 'rule') for opt in args.show_rules]
 
     def preprocess(self, broker):
-        self.formatter = self.Impl(broker, self.missing, self.render_content, self.show_rules)
+        self.formatter = self.Impl(broker, missing=self.missing, render_content=self.render_content,
+                                   show_rules=self.show_rules)
         self.formatter.preprocess()
 
     def postprocess(self, broker):
